@@ -38,6 +38,24 @@ def budget(tier):
     return {"runs": 24000, "run_timeout": 60, "max_wall": 200}
 
 
+class Box:
+    """distinct objects that compare equal when their values are equal: identity matters for pop_random / choice"""
+
+    __slots__ = ("v",)
+
+    def __init__(self, v):
+        self.v = v
+
+    def __eq__(self, other):
+        return isinstance(other, Box) and other.v == self.v
+
+    def __hash__(self):
+        return hash(self.v)
+
+    def __repr__(self):
+        return f"Box({self.v})"
+
+
 class Scripted(RandomSource):
     """base source answering randint from a script (clipped into the requested range)"""
 
@@ -91,8 +109,8 @@ def make_source(ctx, H, kinds=("sim", "native", "ge", "sge", "stack")):
 def run(ctx):
     H = ctx.H
     prim = H.weighted([("randint", 4), ("random_float", 3), ("choice", 2), ("choice_weighted", 4), ("weighted_sweep", 3), ("shuffle", 2),
-                       ("shuffle_sweep", 1), ("pop_random", 2), ("pop_sweep", 1), ("random_bool", 1), ("normalvariate", 1),
-                       ("decider_int", 4), ("dsge_int", 3), ("same_seed", 1)])
+                       ("shuffle_sweep", 1), ("pop_random", 3), ("pop_sweep", 2), ("random_bool", 1), ("normalvariate", 1),
+                       ("decider_int", 3), ("decider_int_sweep", 4), ("dsge_int", 3), ("same_seed", 1)])
     ctx.stat("primitive:" + prim)
     ctx.sample = {"primitive": prim}
     try:
@@ -202,16 +220,17 @@ def body(ctx, H, prim):
             return
         if n == 0:
             return
-        lst = list(items)
+        boxes = [Box(x) for x in items]  # equal values, distinct objects
+        lst = list(boxes)
         v = src.pop_random(lst)
-        rest = list(items)
-        if v in rest:
-            rest.remove(v)
-        else:
+        if not any(v is b_ for b_ in boxes):
             ctx.violate(f"C18/pop_random-returned-foreign-element/{name.split(':')[0]}", f"pop_random of {items} returned {v!r}")
             return
-        if sorted(lst) != sorted(rest):
-            ctx.violate(f"C18/pop_random-removed-wrong-element/{name.split(':')[0]}", f"pop_random of {items} returned {v} and left {lst}")
+        left = [id(x) for x in lst]
+        want = [id(b_) for b_ in boxes if b_ is not v]
+        if sorted(left) != sorted(want):
+            ctx.violate(f"C18/pop_random-removed-wrong-element/{name.split(':')[0]}",
+                        f"pop_random of {items} returned the element at position {[i for i, b_ in enumerate(boxes) if b_ is v]} but the list lost another one (by identity)")
         return
     if prim == "shuffle_sweep":
         n = 2 + H.draw(3)
@@ -228,17 +247,20 @@ def body(ctx, H, prim):
         return
     if prim == "pop_sweep":
         n = 1 + H.draw(6)
+        vals = [H.draw(3) for _ in range(n)]  # duplicates on purpose
         got = []
         for i in range(n):
-            lst = list(range(n))
+            boxes = [Box(x) for x in vals]
+            lst = list(boxes)
             v = Scripted([i]).pop_random(lst)
-            got.append(v)
-            if sorted(lst + [v]) != list(range(n)):
-                ctx.violate("C18/pop_random-removed-wrong-element/sweep", f"draw {i}: returned {v}, left {lst}")
+            idx = [j for j, b_ in enumerate(boxes) if b_ is v]
+            if len(idx) != 1 or sorted(id(x) for x in lst) != sorted(id(b_) for b_ in boxes if b_ is not v):
+                ctx.violate("C18/pop_random-removed-wrong-element/sweep", f"values {vals}, draw {i}: returned {v!r}, list left {lst}")
                 return
+            got.append(idx[0])
         ctx.nontrivial = n > 1
         if sorted(got) != list(range(n)):
-            ctx.violate("C18/pop_random-not-uniform", f"over all {n} draws pop_random returns {got}")
+            ctx.violate("C18/pop_random-not-uniform", f"over all {n} draws pop_random returns positions {got}")
         return
     if prim == "random_bool":
         name, src = make_source(ctx, H)
@@ -255,6 +277,29 @@ def body(ctx, H, prim):
         ctx.nontrivial = True
         if not isinstance(v, float) or math.isnan(v) or math.isinf(v):
             ctx.violate(f"C18/normalvariate-not-finite/{name.split(':')[0]}", f"returned {v!r}")
+        return
+    if prim == "decider_int_sweep":
+        # every possible outcome of the three draws behind a wide BaseDecider.random_int (n in 0..10, e in 0..round(log10(width)), sign)
+        from math import log10
+        from geneticengine.representations.tree.initializations import BaseDecider
+
+        class D(BaseDecider):
+            def random_float(self): ...
+            def random_str(self): ...
+            def choose_production_alternatives(self, ty, alternatives, ctx): ...
+
+        width = H.weighted([(1001 + H.draw(4000), 6), (H.pick([1023, 1457, 1999, 4801, 8191, 19999, 65535, 10**6 + 1, 2**31 - 1]), 3), (sys.maxsize - H.draw(5), 1)])
+        lo = H.pick([0, 1, -1, -width // 2, -width, 10**9, -sys.maxsize + 10]) if width < sys.maxsize // 2 else -(width // 2)
+        hi = lo + width
+        ctx.sample.update({"bounds": [lo, hi], "width": width})
+        ctx.nontrivial = True
+        for n in range(11):
+            for e in range(round(log10(width)) + 1):
+                for bit in (0, 1):
+                    v = D(Scripted([n, e, bit]), None).random_int(lo, hi)
+                    if type(v) is not int or not (lo <= v <= hi):
+                        ctx.violate("C18/decider-random_int-out-of-bounds/wide", f"BaseDecider.random_int({lo}, {hi}) (width {width}) with draws n={n}, e={e}, sign-bit={bit} returned {v}")
+                        return
         return
     if prim in ("decider_int", "dsge_int"):
         install_set_order()
